@@ -105,6 +105,55 @@ fn handshake_as_uid(uid: u32) -> Result<(Vec<u8>, i32), String> {
     res.map(|l| (l, code))
 }
 
+/// One client process that connects several times, changing its real uid in between (a service that drops privileges
+/// and reconnects): every connection announces the uid the process has AT THAT MOMENT. The saved set-user-id stays 0 so
+/// that the child may change again.
+fn handshakes_changing_uid(uids: &[u32]) -> Result<(Vec<Vec<u8>>, i32), String> {
+    let name = peer::fresh_abstract_name();
+    let addr = SocketAddr::from_abstract_name(&name).unwrap();
+    let listener = UnixListener::bind_addr(&addr).map_err(|e| format!("bind: {}", e))?;
+    let pid = unsafe { libc::fork() };
+    if pid < 0 {
+        return Err("fork failed".into());
+    }
+    if pid == 0 {
+        let mut code = 0;
+        for uid in uids {
+            unsafe {
+                // back to root first (the saved set-user-id is 0), then to the next uid
+                if libc::setresuid(0, 0, 0) != 0 || libc::setresuid(*uid, *uid, 0) != 0 || libc::getuid() != *uid {
+                    libc::_exit(3);
+                }
+            }
+            let uaddr = nix::sys::socket::UnixAddr::new_abstract(&name).unwrap();
+            match std::panic::catch_unwind(|| DuplexConn::connect_to_bus(uaddr, false)) {
+                Ok(Ok(_)) => {}
+                Ok(Err(_)) => code = 1,
+                Err(_) => code = 2,
+            }
+        }
+        unsafe { libc::_exit(code) };
+    }
+    let res = (|| -> Result<Vec<Vec<u8>>, String> {
+        let mut lines = Vec::new();
+        for _ in uids {
+            let mut s = accept_timeout(&listener, 2000).ok_or("child never connected")?;
+            s.set_read_timeout(Some(Duration::from_millis(2000))).unwrap();
+            let mut nul = [0u8; 1];
+            s.read_exact(&mut nul).map_err(|e| format!("nul: {}", e))?;
+            let line = peer::read_line(&mut s).map_err(|e| format!("auth line: {}", e))?;
+            s.write_all(b"OK 1234\r\n").map_err(|e| e.to_string())?;
+            let _ = peer::read_line(&mut s).map_err(|e| format!("begin: {}", e))?;
+            lines.push(line);
+        }
+        Ok(lines)
+    })();
+    let mut status: i32 = 0;
+    unsafe { libc::waitpid(pid, &mut status, 0) };
+    let code = if libc::WIFEXITED(status) { libc::WEXITSTATUS(status) } else { 100 + libc::WTERMSIG(status) };
+    res.map(|l| (l, code))
+}
+
 fn uid_phase(out: &mut Out, rng: &mut Prng, cfg: &Cfg) {
     let am_root = unsafe { libc::geteuid() } == 0;
     let mut uids: Vec<u32> = if am_root {
@@ -140,6 +189,26 @@ fn uid_phase(out: &mut Out, rng: &mut Prng, cfg: &Cfg) {
                 out.violation(&req, &format!("handshake as uid {} did not complete: {}", uid, e));
                 out.case(&req, "failed", true);
             }
+        }
+    }
+    // a process that changes its uid between connections
+    if am_root {
+        for seq in [vec![0u32, 12345], vec![1000, 0, 1000], vec![7, 4_000_000_000], vec![99999, 100000, 9]] {
+            let req = format!("c17.uidseq {}", seq.iter().map(|u| u.to_string()).collect::<Vec<_>>().join(","));
+            match handshakes_changing_uid(&seq) {
+                Ok((lines, code)) => {
+                    for (u, l) in seq.iter().zip(lines.iter()) {
+                        if *l != expected_auth_line(*u) {
+                            out.violation(&req, &format!("a connection opened while the process had uid {} announced {:?}", u, String::from_utf8_lossy(l)));
+                        }
+                    }
+                    if code != 0 {
+                        out.violation(&req, &format!("client child ended with status {}", code));
+                    }
+                }
+                Err(e) => out.violation(&req, &format!("handshakes did not complete: {}", e)),
+            }
+            out.hit("uid_changed_between_connections");
         }
     }
 }
